@@ -12,7 +12,9 @@ L2 (correspondence, every run):
     ConfigSpace's own validation on sampled and mutated configurations;
   * `fill`: `RandomSearch.ask` against `fillInactive` on the observed ConfigSpace samples;
   * `regevo`: real `RegularizedEvolution` ask/tell sessions (random phase, then mutations with the
-    observed seeded choices) against `Model/RegEvo.lean`.
+    observed seeded choices; half of them on tightly forbidden spaces, where most mutation trials
+    are re-drawn and the fallback branch — a fresh ConfigSpace sample, completed by the model — is
+    taken) against `Model/RegEvo.lean`.
 L3 (oracle on the real code): every proposal of every search class (exact Python kind + value)
   goes to Lean's `memSpace`/`checkXInSpace`; every setup/ask/tell must succeed; job parameters
   seen by the run-function of `search()` are checked the same way.
@@ -168,6 +170,37 @@ def gen_cells(ck):
         for st in script:
             st["tell"] = [True]
         cells.append((cell, spec, script, "asktell"))
+    # tightly forbidden spaces (`askcommon.gen_tight_spec`: relations between two hyperparameters
+    # and conjunctions over whole value lists exclude 90 % - 99.9 % of the box; every
+    # unconditional hyperparameter is pinned to another one; conditional children that are mostly
+    # inactive): from most members no single-hyperparameter change leads to another member, so
+    # RegularizedEvolution — run well into its evolution phase (small population, 9-14 rounds) —
+    # exhausts its mutation trials and goes through its fallback branch; RandomSearch and CBO (tree
+    # / dummy surrogates, random design: the property's quantifier for constrained spaces) propose
+    # from ConfigSpace's rejection sampling and from the surrogate over such candidates
+    for k in range(ck.pick(44, 420)):
+        r = rng.random()
+        search = "RegEvo" if k < 6 or r < 0.62 else ("CBO" if r < 0.88 else "Random")
+        spec = ac.gen_tight_spec(rng, max_size=1000 if search == "RegEvo" else 250)
+        cell = {"search": search, "seed": rng.randint(0, 10**6), "n_initial": rng.randint(2, 4),
+                "n_points": rng.choice([12, 16, 24])}
+        if search == "RegEvo":
+            cell["population_size"] = rng.randint(2, 4)
+            cell["sample_size"] = rng.randint(1, cell["population_size"] - 1)  # the constructor demands sample < population
+            script = ac.gen_script(rng, rng.randint(9, 14), 3, fail_p=0.1, magnitude=rng.choice(ac.OBJ_MAGNITUDES))
+            for st in script:
+                if rng.random() < 0.8:
+                    st["tell"] = [True]
+        elif search == "CBO":
+            cell.update({"surrogate": rng.choice(["RF", "ET", "TB", "RS", "GBRT", "DUMMY"]),
+                         "acq": rng.choice(["UCB", "EI", "PI", "UCBd", "gp_hedge"]),
+                         "strategy": rng.choice(ac.STRATEGIES), "design": "random",
+                         "filter_failures": rng.choice(["min", "mean", "ignore"])})
+            script = ac.gen_script(rng, rng.randint(4, 7), 3, fail_p=0.1)
+        else:
+            script = ac.gen_script(rng, rng.randint(3, 6), 4, fail_p=0.1)
+        mode = "search" if rng.random() < 0.1 else "asktell"
+        cells.append((cell, spec, script, mode))
     return cells
 
 
@@ -293,6 +326,9 @@ def _fin_cases(ck, d):
         surrogate = rng.choice(["ET", "TB", "GP", "RF", "DUMMY"])
         constrained = surrogate != "GP" and rng.random() < 0.45
         spec = ac.gen_spec(rng, constrained=constrained)
+        if constrained and rng.random() < 0.3:
+            # relations between two hyperparameters: most rows off the sampled ones are forbidden
+            spec = ac.gen_tight_spec(rng, max_size=250)
         problem = ac.build_problem(spec)
         sp = convert_to_skopt_space(problem.space, surrogate_model=surrogate)
         if surrogate == "GP":
@@ -402,6 +438,10 @@ def _cs_cases(ck, d):
     n_specs = ck.pick(30, 250)
     for s in range(n_specs):
         spec = ac.gen_spec(rng, constrained=True)
+        tight = s % 3 == 2
+        if tight:
+            # forbidden relations between two hyperparameters and conjunctions over value lists
+            spec = ac.gen_tight_spec(rng, max_size=250)
         if not ac.spec_is_constrained(spec):
             continue
         problem = ac.build_problem(spec)
@@ -427,6 +467,9 @@ def _cs_cases(ck, d):
             j = rng.randrange(len(names))
             vals = ac._values_of(by[names[j]])
             y[j] = rng.choice(vals)
+            if by[names[j]]["kind"] == "int" and rng.random() < 0.5:
+                # a neighbour: just on either side of a relation between two hyperparameters
+                y[j] = min(by[names[j]]["hi"], max(by[names[j]]["lo"], x[j] + rng.choice([-1, 1])))
             if by[names[j]]["kind"] == "float":
                 # ConfigSpace's view of a configuration is the one with floats rounded to 13 digits
                 y[j] = float(np.round(float(y[j]), 13))
@@ -448,6 +491,8 @@ def _cs_cases(ck, d):
             case = {"kind": "cs", "spec": spec, "x": x, "from": kind}
             ck.case(case, nontrivial=True)
             ck.count("cs:" + kind + (":member" if res["mem"] else ":not-member"))
+            if tight:
+                ck.count("cs:tightly-forbidden:" + kind + (":member" if res["mem"] else ":not-member"))
             if kind == "sample" and not ok_py:
                 raise HarnessError(f"ConfigSpace rejects its own sample: {why} {case}")
             if res["mem"] != ok_py:
@@ -467,6 +512,8 @@ def _fill_cases(ck, d):
     rng = ck.rng
     for s in range(ck.pick(16, 120)):
         spec = ac.gen_spec(rng, constrained=rng.random() < 0.8)
+        if rng.random() < 0.25:
+            spec = ac.gen_tight_spec(rng, max_size=250)
         problem = ac.build_problem(spec)
         names = list(problem.space.keys())
         decl = ac.decl_of(spec, problem, None)
@@ -533,12 +580,16 @@ def _regevo_cases(ck, d):
             self.log.append(("choice", out))
             return out
 
-    for sidx in range(ck.pick(14, 120)):
-        spec = ac.gen_spec(rng, constrained=rng.random() < 0.75)
+    n_loose = ck.pick(14, 120)
+    for sidx in range(n_loose + ck.pick(16, 140)):
+        # the second half runs on tightly forbidden spaces: most mutation trials are re-drawn and
+        # the fallback branch (a fresh ConfigSpace sample, completed) is taken
+        tight = sidx >= n_loose
+        spec = ac.gen_tight_spec(rng) if tight else ac.gen_spec(rng, constrained=rng.random() < 0.75)
         problem = ac.build_problem(spec)
         names = list(problem.space.keys())
         decl = ac.decl_of(spec, problem, None)
-        pop_size = rng.randint(2, 5)
+        pop_size = rng.randint(2, 4) if tight else rng.randint(2, 5)
         sample_size = rng.randint(1, pop_size - 1)
         rs = SpyRS(rng.randint(0, 10**6))
         events = rs.log
@@ -563,24 +614,23 @@ def _regevo_cases(ck, d):
             CS.ConfigurationSpace.sample_configuration = spy_sample
             search = RegularizedEvolution(problem, Evaluator.create(ac._run_dummy, method="serial"), random_state=rs,
                                           log_dir=tmp, population_size=pop_size, sample_size=sample_size)
-            by = {h["name"]: h for h in spec["hps"]}
-
-            def canon(nm):
-                h = by[nm]
-                return h["lo"] if h["kind"] in ("int", "float") else h["choices"][0]
-
-            def filled(conf):
+            def raw(conf):
+                # the ConfigSpace sample as it is: a value for the active hyperparameters, nothing
+                # for the others (the model completes it)
                 dct = dict(conf)
-                return [ac.plain(dct[nm]) if nm in dct else canon(nm) for nm in names]
+                return [ac.enc(ac.plain(dct[nm])) if nm in dct else None for nm in names]
 
-            for step in range(rng.randint(5, 10)):
+            def proposal(x):
+                return ac.enc_cfg([x.get(nm, f"<missing {nm}>") for nm in names])
+
+            for step in range(rng.randint(8, 14) if tight else rng.randint(5, 10)):
                 n = rng.randint(1, 3)
                 del events[:]
                 X = search.ask(n)
                 evs = list(events)
-                op = {"op": "ask", "n": n, "X": [ac.enc_cfg([x[nm] for nm in names]) for x in X], "fresh": [], "children": []}
+                op = {"op": "ask", "n": n, "X": [proposal(x) for x in X], "fresh": [], "children": []}
                 if evs and evs[0][0] == "sample" and not any(e[0] == "choice" for e in evs):
-                    op["fresh"] = [ac.enc_cfg(filled(c)) for e in evs if e[0] == "sample" for c in e[1]]
+                    op["fresh"] = [raw(c) for e in evs if e[0] == "sample" for c in e[1]]
                 else:
                     cur = None
                     for e in evs:
@@ -595,14 +645,14 @@ def _regevo_cases(ck, d):
                             if isinstance(v, float):
                                 rnd.append([rat(v), rat(float(np.round(v, 13)))])
                         elif e[0] == "sample":
-                            cur["fresh"] = ac.enc_cfg(filled(e[1][0]))
+                            cur["fresh"] = raw(e[1][0])
                 ops.append(op)
                 results = []
                 for x in X:
                     obj = rng.choice([round(rng.uniform(-2, 2), 2), float(rng.randint(0, 3)), "F_crash"])
                     results.append((x, obj))
                 search.tell([ac.Job(x, o) for x, o in results])
-                ops.append({"op": "tell", "results": [[ac.enc_cfg([x[nm] for nm in names]), None if isinstance(o, str) else rat(o)]
+                ops.append({"op": "tell", "results": [[proposal(x), None if isinstance(o, str) else rat(o)]
                                                        for x, o in results]})
         except Exception as e:
             error = e
@@ -625,6 +675,8 @@ def _regevo_cases(ck, d):
         n_child = sum(len(o.get("children", [])) for o in ops)
         ck.count("regevo:children", n_child)
         ck.count("regevo:redrawn-mutations", n_att - n_child)
+        ck.count("regevo:fallback-children(all-trials-forbidden)", rep.get("fallbacks", 0))
+        ck.count("regevo:sessions-" + ("tight" if tight else "general"))
         if rep["mismatch"] is not None:
             ck.mismatch(case, {"model_vs_impl": rep["mismatch"], "replayed": rep["replayed"]})
 
@@ -663,6 +715,10 @@ def _process(ck, d, cells, recs, reqs_meta):
         elif cell["search"] == "EDS":
             ck.count("design:" + cell["design"])
         ck.count("space:" + ("constrained" if constrained else "flat"))
+        if ac.spec_is_tight(spec):
+            ck.count(f"space:tightly-forbidden:{cell['search']}")
+        if rec.get("numpy_values"):
+            ck.count(f"proposal:value-handed-out-as-numpy-scalar(observed,not-judged):{cell['search']}", rec["numpy_values"])
         for h in spec["hps"]:
             ck.count("hp:" + h["kind"] + ("-log" if h.get("log") else ""))
         if rec["not_accepted"]:
@@ -704,7 +760,9 @@ def run(ck):
                "str/bool, ordinal int/float, constant; optional conditions and a forbidden clause) x search class "
                "{CBO, ExperimentalDesignSearch, RandomSearch, RegularizedEvolution} x surrogate x acquisition x "
                "multi-point strategy x initial design x seed x 4-8 ask/tell rounds (batch 1-4, told objectives "
-               "incl. failures, results told out of step) + search() runs; fin rows (members, jitter, far outside, "
+               "incl. failures, results told out of step) + search() runs; tightly forbidden spaces (pairs of hyperparameters "
+               "forced to agree by relations / value-list conjunctions, 90-99.9 % of the box forbidden, conditional children) x "
+               "{RegularizedEvolution well into its evolution phase, CBO, RandomSearch}; fin rows (members, jitter, far outside, "
                "exact bounds, rounding ties); ConfigSpace samples and mutants.  distinct by canonical case; "
                "non-trivial = at least one proposal / a row that is not the transform of a member")
     ck.assumptions = [
@@ -722,15 +780,27 @@ def run(ck):
     cells = _load_corpus()
     n_corpus = len(cells)
     cells += gen_cells(ck)
+    import time
+
+    t_cells = time.time()
     recs = _run_cells(ck, cells, n_corpus)
     if os.environ.get("VERIF_TIMING"):
+        print("timing cells", round(time.time() - t_cells, 1))
         for secs, c in sorted(((r.get("secs", 0), c[0]) for r, c in zip(recs, cells)), key=lambda p: -p[0])[:12]:
             print("timing", secs, c)
     with ck.driver() as d:
+        t_proc = time.time()
         prov = _process(ck, d, cells, recs, None)
+        if os.environ.get("VERIF_TIMING"):
+            print("timing process (mem oracle + session replay)", round(time.time() - t_proc, 1))
         for name, part in (("fin", _fin_cases), ("cs", _cs_cases), ("fill", _fill_cases), ("regevo", _regevo_cases)):
             try:
+                import time
+
+                t_part = time.time()
                 part(ck, d)
+                if os.environ.get("VERIF_TIMING"):
+                    print("timing part", name, round(time.time() - t_part, 1))
             except HarnessError:
                 raise
             except Exception as e:  # noqa: BLE001
